@@ -161,13 +161,16 @@ def check_c13(rep, tier):
                 cmd = " ".join(words)
             e.send(cmd)
             e.send("stop")
-            lines = e.sync(30)
+            lines = e.sync(12)
             if lines is None:
                 rep.violation("impl-vs-spec", f"engine stopped answering after `{cmd}`", "\n".join(e.log[-12:]), replay_ops=e.log[-8:])
                 e.kill()
                 e = Engine()
                 e.sync(20)
                 results.append((t, side, cmd, None, None))
+                stats["go_commands_unanswered"] += 1
+                if stats["go_commands_unanswered"] >= 4:
+                    break          # the failing inputs are recorded; do not spend half a minute on each of the remaining commands
                 continue
             times = [l.split()[2] for l in lines if l.startswith("info time ")]
             best = [l for l in lines if l.startswith("bestmove")]
@@ -269,12 +272,15 @@ def check_c13(rep, tier):
             e.sync(10)
     finally:
         e.close()
+    check_combined_limits(rep, "C13", stats)
     return stats, kinds, [r[2] for r in results[:8]]
 
 
 # ----------------------------------------------------------------------------------------- C14
 
 def run_session(script, env=None, final_timeout=15.0):
+    env = dict(env or {})
+    allow_none = bool(env.pop("allow_none", 0))      # a session over positions that have no legal move
     """script: list of (cmd, delay_ms_before, wait) where wait in (None, 'sync', 'bestmove').
     Returns dict(transcript, per-command answers, rc, err, problems)."""
     e = Engine(env=env)
@@ -341,7 +347,7 @@ def run_session(script, env=None, final_timeout=15.0):
         problems.append(f"{accepted} go commands accepted but {best} bestmove lines")
     for cmd, got in answers:
         for l in got:
-            if l.startswith("bestmove none"):
+            if l.startswith("bestmove none") and not allow_none:
                 problems.append(f"bestmove none after `{cmd}`")
     for l in e.log:
         # an answer of one thread inside a line of another (`info pv readyok`)
@@ -375,6 +381,12 @@ ADVERSARIAL = [
       ("go infinite", 0, None), ("isready", 700, "quiet"), ("stop", 0, None), ("position startpos", 0, None),
       ("go wtime 20000 btime 20000 winc 0 binc 0", 0, None), ("stop", 30, None), ("position startpos moves d2d4", 0, None),
       ("go depth 30", 0, None), ("isready", 600, "quiet"), ("stop", 0, None)]),
+    ("go in positions without a legal move: one bestmove each all the same (`bestmove none`)", {"allow_none": 1},
+     [("position fen 7k/5Q2/6K1/8/8/8/8/8 b - - 0 1", 0, None), ("go depth 3", 0, "bestmove"),
+      ("position fen R5k1/5ppp/8/8/8/8/8/4K3 b - - 0 1", 0, None), ("go movetime 100", 0, "bestmove"),
+      ("position fen 7k/5Q2/6K1/8/8/8/8/8 b - - 0 1", 0, None), ("go infinite", 0, None), ("stop", 100, None),
+      ("position startpos moves f2f3 e7e5 g2g4 d8h4", 0, None), ("go depth 2", 0, "bestmove"),
+      ("position startpos", 0, None), ("go depth 2", 0, "bestmove")]),
     ("timer wake-up stretched", {"RUSTYBAIT_VERIF_TIMER_WAKEUP_MS": 200},
      [("position startpos", 0, None), ("go movetime 20", 0, "bestmove"), ("position startpos", 0, None), ("go movetime 20", 0, "bestmove")]),
     ("ucinewgame and isready while searching", {},
@@ -471,7 +483,10 @@ def engine_search(fen, depth, env=None, prelude=()):
     e = Engine(env=env)
     try:
         for c in prelude:
-            e.send(c)
+            if c.startswith("sleep "):
+                time.sleep(int(c.split()[1]) / 1000.0)
+            else:
+                e.send(c)
         if prelude and e.sync(120) is None:      # drain everything the unrelated searches printed
             return None
         e.send("position fen " + fen)
@@ -540,6 +555,17 @@ def check_c19(rep, tier):
     with cf.ThreadPoolExecutor(max_workers=8) as ex:
         dfresh = list(ex.map(lambda j: engine_search(*j), deep))
         dreset = list(ex.map(lambda j: engine_search(j[0], j[1], prelude=heavy), deep))
+    # the reset arrives WHILE a search is running (no stop before it), on the same and on another position
+    for f, d in ((E2E4, 5), (roots.START, 5), (roots.PERFT[1], 4)):
+        for other in (f, roots.START):
+            pre = ["position fen " + other, "go infinite", "sleep 400", "ucinewgame"]
+            a = engine_search(f, d)
+            b = engine_search(f, d, prelude=pre)
+            stats["runs"] += 2
+            kinds["reset-while-searching"] += 1
+            if a is None or b is None or a != b:
+                rep.violation("impl-vs-spec", f"fixed-depth search not reproducible after `ucinewgame` sent while a search was running, depth {d} @ {f}",
+                              f"after reset: {b[-4:] if b else b}\nfresh: {a[-4:] if a else a}", replay_ops=pre + [f"position fen {f}", f"go depth {d}"])
     # many resets in a row (a reset implemented by a wrapping generation counter comes back to old entries)
     counts = (256, 65536) if tier == "quick" else (255, 256, 257, 512, 1024, 65536)
     for n in counts:
@@ -564,3 +590,78 @@ def check_c19(rep, tier):
                           f"after reset: {b[-4:]}\nfresh: {a[-4:]}", replay_ops=heavy + [f"position fen {f}", f"go depth {d}"])
     stats["jobs"] = len(jobs)
     return stats, kinds, [f"position fen {f} ; go depth {d}" for f, d in jobs[:5]]
+
+
+# ----------------------------------------------------------------------------------------- combined limits (C08, C13)
+
+COMBINED = [  # (command, depth limit, time available in ms)
+    ("go depth 2 movetime 1500", 2, 1500), ("go movetime 1500 depth 2", 2, 1500),
+    ("go depth 3 wtime 200000 btime 200000 winc 1000 binc 1000", 3, 4845),
+    ("go depth 30 movetime 300", 30, 300), ("go movetime 300 depth 30", 30, 300),
+    ("go wtime 3000 btime 3000 winc 0 binc 0 depth 20", 20, 0), ("go depth 20 wtime 20000 btime 20000 winc 0 binc 0", 20, 245),
+]
+
+
+def check_combined_limits(rep, pid, stats):
+    """A `go` that carries BOTH a depth limit and a time limit: neither may switch the other off.
+    C08 judges the depths reported, C13 the time until `bestmove`."""
+    e = Engine()
+    try:
+        if e.sync(20) is None:
+            return
+        for cmd, dlim, avail in COMBINED:
+            for pos in ("position startpos", "position fen " + BLACK_FEN):
+                e.send(pos)
+                t0 = time.time()
+                e.send(cmd)
+                lines, ok, eof = e.read_until(lambda l: l.startswith("bestmove"), 12)
+                dt = (time.time() - t0) * 1000
+                stats["combined_limit_runs"] += 1
+                depths = [int(l.split()[2]) for _, l in lines if l.startswith("info depth ")]
+                replay = [pos, cmd]
+                if not ok:
+                    e.send("stop")
+                    e.sync(10)
+                if pid == "C08":
+                    if depths and max(depths) > dlim:
+                        rep.violation("impl-vs-spec", f"`{cmd}` searched to depth {max(depths)}: the depth limit {dlim} was dropped", "", replay_ops=replay)
+                else:
+                    if not ok:
+                        rep.violation("impl-vs-spec", f"no bestmove within 12 s for `{cmd}` ({avail} ms available)", "", replay_ops=replay)
+                    elif dt > avail + 1500:
+                        rep.violation("impl-vs-spec", f"bestmove announced {int(dt)} ms after `{cmd}` ({avail} ms available)", "", replay_ops=replay)
+                e.sync(10)
+    finally:
+        e.close()
+
+
+# ----------------------------------------------------------------------------------------- stop promptness on the binary (C07)
+
+def check_stop_promptness(rep, stats):
+    """`stop` during every kind of search is answered with a legal-looking bestmove at once (well under the thinking time)."""
+    e = Engine()
+    try:
+        if e.sync(20) is None:
+            return
+        for cmd in ("go movetime 6000", "go wtime 600000 btime 600000 winc 0 binc 0", "go infinite", "go depth 30", "go depth 30 movetime 6000"):
+            for pos in ("position startpos", "position fen " + BLACK_FEN):
+                e.send(pos)
+                e.send(cmd)
+                time.sleep(0.15)
+                t0 = time.time()
+                e.send("stop")
+                lines, ok, eof = e.read_until(lambda l: l.startswith("bestmove"), 8)
+                dt = (time.time() - t0) * 1000
+                stats["stop_latency_ms_max"] = max(stats["stop_latency_ms_max"], int(dt))
+                stats["stops_on_the_binary"] += 1
+                if not ok or dt > 1500:
+                    rep.violation("impl-vs-spec", f"`stop` 150 ms into `{cmd}` answered after {int(dt)} ms" if ok else f"`stop` 150 ms into `{cmd}` not answered within 8 s",
+                                  "", replay_ops=[pos, cmd, "(150 ms)", "stop"])
+                    if not ok:
+                        e.kill(); e = Engine(); e.sync(20)
+                        continue
+                elif ok and (lines[-1][1].split() + ["", ""])[1] in ("none", ""):
+                    rep.violation("impl-vs-spec", f"`stop` during `{cmd}` answered `{lines[-1][1]}`", "", replay_ops=[pos, cmd, "stop"])
+                e.sync(10)
+    finally:
+        e.close()
